@@ -666,9 +666,12 @@ def check_result(res, E, case, cols, note, tag):
                     bad.append(r)
             if bad:
                 d = None
-                if n > 1:
+                wv = np.array(wants, float)
+                sep = min([abs(a - b) for i, a in enumerate(wv)
+                           for b in wv[i + 1:]] or [0.0])
+                if n > 1 and sep > 1e-6 * max(1.0, float(np.max(np.abs(wv)))):
                     d = _classify(np.asarray(got, float).reshape(n, 1),
-                                  np.array(wants).reshape(n, 1), False)
+                                  wv.reshape(n, 1), False)
                 note.fail(d or (f"estimate:{e}" if builtin
                                 else f"estimate:custom:{e}"),
                           dict(call=tag, key=key, rows=bad,
@@ -1029,9 +1032,9 @@ def generic_wide():
 def subchecks(tier):
     q = tier == "quick"
     return [
-        Sub("table", case_strategy(False), test_case, 160 if q else 4000,
+        Sub("table", case_strategy(False), test_case, 640 if q else 5000,
             generic=generic_cases(), shards=8 if q else 16, max_rounds=3),
-        Sub("wide", case_strategy(True), test_case, 24 if q else 600,
+        Sub("wide", case_strategy(True), test_case, 48 if q else 1200,
             generic=generic_wide(), shards=8 if q else 16, max_rounds=3,
             shrink_quick=False),
     ]
